@@ -488,7 +488,7 @@ NP_FUNCS = {
     'numpy.moveaxis': lambda a, s_, d: np.moveaxis(np.asarray(a, dtype=object), s_, d), 'numpy.swapaxes': lambda a, i, j: np.swapaxes(np.asarray(a, dtype=object), int(i), int(j)),
     'numpy.expand_dims': lambda a, axis: np.expand_dims(np.asarray(a, dtype=object), axis), 'numpy.squeeze': lambda a, axis=None: np.squeeze(np.asarray(a, dtype=object), axis=axis),
     'numpy.reshape': lambda a, shape: np.reshape(np.asarray(a, dtype=object), shape), 'numpy.ravel': lambda a: np.ravel(np.asarray(a, dtype=object)),
-    'numpy.tile': lambda a, reps: np.tile(np.asarray(a, dtype=object), reps), 'numpy.repeat': lambda a, r, axis=None: np.repeat(np.asarray(a, dtype=object), r, axis=axis),
+    'numpy.tile': lambda a, reps: np.tile(np.asarray(a, dtype=object), (int(reps) if np.ndim(reps) == 0 else tuple(int(v) for v in np.ravel(reps)))), 'numpy.repeat': lambda a, r, axis=None: np.repeat(np.asarray(a, dtype=object), (int(r) if np.ndim(r) == 0 else [int(v) for v in np.ravel(r)]), axis=axis),
     'numpy.column_stack': lambda xs: np.column_stack([np.asarray(x, dtype=object) for x in xs]),
     'numpy.array_equal': lambda a, b: bool(np.shape(a) == np.shape(b) and all(is_zero(sp.sympify(x) - sp.sympify(y), deep=False) for x, y in zip(np.ravel(np.asarray(a, dtype=object)), np.ravel(np.asarray(b, dtype=object))))),
     'numpy.square': lambda x: vmap(lambda e: e ** 2, x), 'numpy.negative': lambda x: vmap(lambda e: -e, x), 'numpy.fabs': lambda x: vmap(sp.Abs, x),
@@ -523,6 +523,7 @@ NP_FUNCS.update({
     'math.atan': lambda x: sp.atan(x), 'math.atan2': lambda y, x: sp.atan2(y, x), 'math.log': lambda x, *b: sp.log(x, *b), 'math.exp': lambda x: sp.exp(x), 'math.floor': lambda x: sp.floor(x), 'math.ceil': lambda x: sp.ceiling(x),
     'math.fabs': lambda x: sp.Abs(x), 'math.radians': lambda x: x * sp.pi / 180, 'math.degrees': lambda x: x * 180 / sp.pi, 'math.gcd': lambda *a: sp.Integer(__import__('math').gcd(*[int(v) for v in a])),
     'math.hypot': lambda *a: sp.sqrt(sum(v ** 2 for v in a)), 'math.isclose': lambda a, b, **k: _isclose(a, b), 'math.prod': lambda xs: sp.Mul(*_pylist(xs)),
+    'collections.OrderedDict': lambda *a, **k: dict(*a, **k), 'collections.defaultdict': lambda *a, **k: dict(),
     'copy.copy': lambda x: (x.copy() if is_arr(x) else (list(x) if isinstance(x, list) else (dict(x) if isinstance(x, dict) else x))),
 })
 
@@ -673,7 +674,7 @@ class SymEval:
     MAX_PATHS = 256
 
     def __init__(self, aliases=None, funcs=None, decide=None, opaque_calls=True, max_depth=6):
-        self.aliases = {'np': 'numpy', 'numpy': 'numpy', 'deepcopy': 'copy.deepcopy', 'copy': 'copy', 'itertools': 'itertools', 'math': 'math', 'functools': 'functools'}
+        self.aliases = {'np': 'numpy', 'numpy': 'numpy', 'deepcopy': 'copy.deepcopy', 'copy': 'copy', 'itertools': 'itertools', 'math': 'math', 'functools': 'functools', 'collections': 'collections'}
         self.aliases.update(aliases or {})
         self.funcs = dict(funcs or {})
         self.decide = decide
@@ -1031,6 +1032,9 @@ class SymEval:
                             return norm(n)
                         spec = ''.join(str(c.value) for c in v.format_spec.values)
                     x = self.ev(v.value, p)
+                    if x is None and not spec:
+                        out.append('None')
+                        continue
                     if isinstance(x, bool) or not (isinstance(x, (str, int, sp.Integer)) or (isinstance(x, PyStub) and '__format__' in type(x).__dict__)):
                         return norm(n)
                     if spec:
@@ -1217,6 +1221,21 @@ class SymEval:
         if isinstance(base, list) and attr in ('append', 'index', 'pop', 'insert', 'extend', 'count', 'copy'):
             return getattr(base, attr)
         if isinstance(base, str) and attr in ('strip', 'split', 'lower', 'upper', 'startswith', 'endswith', 'isalpha', 'isdigit', 'find', 'rfind', 'replace', 'lstrip', 'rstrip', 'count'):
+            return getattr(base, attr)
+        if isinstance(base, str) and attr in ('format', 'partition', 'rpartition', 'splitlines', 'title', 'capitalize', 'zfill', 'ljust', 'rjust', 'center', 'isspace', 'isnumeric', 'isalnum', 'casefold', 'rsplit', 'rindex', 'encode', 'removeprefix', 'removesuffix'):
+            if attr == 'format':
+                def _format(*a, **k):
+                    conv = lambda v: int(v) if isinstance(v, sp.Integer) else v
+                    if not all(v is None or (isinstance(v, (str, int, sp.Integer)) and not isinstance(v, bool)) for v in list(a) + list(k.values())):
+                        raise Opaque('str.format of symbolic values')
+                    return base.format(*[conv(v) for v in a], **{kk: conv(v) for kk, v in k.items()})
+                return _format
+            return getattr(base, attr)
+        if isinstance(base, list) and attr in ('sort', 'reverse', 'clear', 'remove'):
+            return getattr(base, attr)
+        if isinstance(base, (tuple,)) and attr in ('index', 'count'):
+            return getattr(base, attr)
+        if isinstance(base, set) and attr in ('add', 'update', 'discard', 'remove', 'union', 'intersection', 'difference', 'issubset', 'issuperset', 'copy'):
             return getattr(base, attr)
         if isinstance(base, str) and attr == 'index':
             def _index(sub):
